@@ -53,11 +53,12 @@ def auth_arg(kind):
         return AuthBasic([])
     if kind == 'basic1':
         return AuthBasic(['alice'])
+    # (the clients may be given as any iterable: a list, a generator, zip(names, tokens), an iterator)
     if kind == 'basic3':
-        return AuthBasic(['alice', 'bob', 'carol'])
+        return AuthBasic(n for n in ['alice', 'bob', 'carol'])
     if kind == 'basic1tok':
-        return AuthBasic([('alice', 'dG9rZW5hbGljZQ')])
-    return AuthBasic(['alice', ('bob', 'dG9rZW5ib2I'), 'carol'])
+        return AuthBasic(zip(['alice'], ['dG9rZW5hbGljZQ']))
+    return AuthBasic(iter(['alice', ('bob', 'dG9rZW5ib2I'), 'carol']))
 
 
 def auth_expected(kind):
@@ -300,6 +301,44 @@ def run_create(version, key, detach, single_hop, auth, ports_forms, entry='creat
     return dict(viol=viol, obs=obs, log=log)
 
 
+def run_failed_wait(version, auth, fault):
+    """Tor creates the service and generates its key; then the descriptor wait fails (every upload fails / the connection is
+    lost): create() fails, the service exists in Tor - the object the configuration holds for it (if it holds one) has the key,
+    the only copy outside Tor"""
+    viol = []
+    with World() as w:
+        impl = CfgImpl(w, [('SocksPort', ['9050'])])
+        sim = impl.sim
+        if auth != 'none':
+            sim.onion_id_hook = lambda req: RSA_SID
+            sim.onion_key_hook = lambda req: 'RSA1024:' + RSA_BLOB
+        if auth == 'none':
+            d = EphemeralOnionService.create(w.reactor, impl.cfg, [(80, 8080)], version=version)
+        else:
+            d = EphemeralAuthenticatedOnionService.create(w.reactor, impl.cfg, [(80, 8080)], auth=auth_arg(auth), version=version)
+        rec = DRec(d)
+        sim.pump()
+        sid = list(sim.onions)[-1] if sim.onions else None
+        if sid is None:
+            return dict(viol=[('not-one-add-onion', 'n=0', 'no service created')], obs=('x',), log=[])
+        gen = sim.onions[sid].get('generated_key')
+        if fault == 'uploads-fail':
+            sim.event('HS_DESC UPLOAD %s UNKNOWN $%s somedescid' % (sid, 'AB' * 20))
+            sim.event('HS_DESC FAILED %s UNKNOWN $%s somedescid REASON=UPLOAD_REJECTED' % (sid, 'AB' * 20))
+            sim.pump()
+        else:
+            impl.wire.lose()
+        if rec.kind != 'err':
+            viol.append(('create-outcome', 'failed-wait/%s' % fault, '%r' % (rec.summary()[:2],)))
+        held = [s for s in impl.cfg.EphemeralOnionServices if getattr(s, 'hostname', None) == '%s.onion' % sid]
+        if held and held[-1].private_key != gen:
+            viol.append(('generated-key-not-retained', 'v%d/%s/after-%s' % (version, auth, fault),
+                         'Tor generated %r for %s; create() failed (%s); the service object in the configuration has private_key %r'
+                         % (gen, sid, fault, held[-1].private_key)))
+        obs = (rec.summary()[0], bool(held))
+    return dict(viol=viol, obs=obs, log=['v%d auth=%s fault=%s' % (version, auth, fault)])
+
+
 def run_discovered(which, sid):
     """a service Tor already has (listed under onions/current or onions/detached when the configuration is read): its address
     is that id + '.onion', and removing it sends DEL_ONION for exactly that id"""
@@ -348,6 +387,7 @@ def tasks(tier, seed):
     out.append(('bad',))
     out.append(('tor',))
     out.append(('reuse',))
+    out.append(('failedwait',))
     return out
 
 
@@ -394,6 +434,11 @@ def run_task(param, acc):
                          cost=len(pf) * 10 + AUTHS.index(auth) + detach + single_hop)
         if r:
             acc.sample(dict(version=version, key=key, add_onion=r['log'][-1:] if r['log'] else None), limit=1)
+    elif param[0] == 'failedwait':
+        for version, auth in ((2, 'none'), (3, 'none'), (2, 'basic1')):
+            for fault in ('uploads-fail', 'connection-lost'):
+                r = run_failed_wait(version, auth, fault)
+                rec_exec(acc, ('failedwait', version, auth, fault), r, dict(entry='failedwait', version=version, auth=auth, fault=fault), cost=8)
     elif param[0] == 'reuse':
         # the same ports list and the same AuthBasic object handed to a second create() (after the first service is gone)
         for version, key, auth in [(2, 'none', a) for a in AUTHS] + [(2, 'bare', 'basic3mixed'), (3, 'none', 'none'), (3, 'discard', 'none')]:
@@ -423,6 +468,9 @@ def run_task(param, acc):
 
 
 def replay(p):
+    if p.get('entry') == 'failedwait':
+        r = run_failed_wait(p['version'], p['auth'], p['fault'])
+        return dict(violations=[dict(signature='%s/%s' % (c, f), what=d) for c, f, d in r['viol']], log=r['log'])
     if p.get('entry') == 'discovered':
         r = run_discovered(p['which'], p['sid'])
         return dict(violations=[dict(signature='%s/%s' % (c, f), what=d) for c, f, d in r['viol']], log=r['log'])
